@@ -307,9 +307,35 @@ def alias_check(sources, res, opd, ctx, opname):
         if len(shape) >= 1:
             o = numpy.full((1,) + shape[1:], 2, dtype=numpy.int64)
             res.append(M.build_index(o, 0))
-            verify("append")
+            if not verify("append"):
+                return
     except Exception as e:  # noqa
         ctx.v("C06", "%s:alias-check-raised" % opname, opd, "mutating the result raised %r" % (e,))
+        return
+    # ... and the other way round: changing a SOURCE in place afterwards must not reach the result
+    try:
+        rk = key_of(res)
+        for src in sources:
+            sshape = tuple(src.shape)
+            if len(sshape) > 2 or src is res:
+                continue
+            v = next(x for x in COMMONS if x != src.common)
+            src.shift_common(v)
+            steps = ["shift_common(%r)" % (v,)]
+            if sshape and all(e > 0 for e in sshape):
+                cell = (0,) * len(sshape)
+                newv = 1 if src.common != 1 else 2
+                src.update({(newv,) + cell[1:]: numpy.array([0], dtype=U32)})
+                steps.append("update")
+            if len(sshape) >= 1:
+                src.append(M.build_index(numpy.full((1,) + sshape[1:], 2, dtype=numpy.int64), 0))
+                steps.append("append")
+            if key_of(res) != rk:
+                ctx.v("C06", "%s:result-changed-through-source" % opname, opd,
+                      "after %s on a SOURCE of %s the result changed from %r to %r" % (", ".join(steps), opname, describe_key(rk), describe_key(key_of(res))))
+                return
+    except Exception as e:  # noqa
+        ctx.v("C06", "%s:alias-check-raised" % opname, opd, "mutating a source raised %r" % (e,))
 
 
 # ----------------------------------------------------------------------------- menus
@@ -449,6 +475,7 @@ def expand(key, cfg, reverse=False, prune=None, focus=None):
                     exp = numpy.concatenate([d, o]) if d.ndim == o.ndim else None
                     check_result(s, exp, opd, ctx, "append", chosen_common=True)
                     unchanged(okey, other, "operand", opd, ctx, "append")
+                    alias_check([other], s, opd, ctx, "append")
                 except Exception as e:  # noqa
                     ctx.v("C06", "append:raised", opd, repr(e))
 
@@ -603,6 +630,7 @@ def expand(key, cfg, reverse=False, prune=None, focus=None):
                 unchanged(key, s, "receiver", opd, ctx, "collapsed", prop="C17")
                 if p_arg != list(prec):
                     ctx.v("C17", "collapsed:precedence-modified", opd, "precedence list changed to %r" % (p_arg,))
+                alias_check([s], r, opd, ctx, "collapsed")
             except Exception as e:  # noqa
                 ctx.v("C06", "collapsed:raised", opd, repr(e))
         _expand_slicing(key, d, fresh, ctx)
